@@ -137,6 +137,11 @@ class Factory(object):
         self.ctx.leaves.append((nm, SStr(z)))
         return ListV(list(tail), prefix=z)
 
+    def nodelist(self, name, tail=()):
+        """stack of tree nodes of arbitrary length (identities; name/namespace are functions of the identity)"""
+        nm = self._name(name)
+        return ListV(list(tail), prefix=z3.Const(nm, z3.SeqSort(z3.IntSort())))
+
     def symlist(self, name, tail=()):
         """list of strings of arbitrary length followed by the given concrete tail."""
         p = self.strlist(name)
